@@ -37,8 +37,15 @@ class ArcBasedRoutingProblem(RoutingProblem):
         self.constraints_matrix = None
         self.constraints_rhs = None
 
+    def _problem_changed(self):
+        """ Variables, constraints and objective have to be rebuilt """
+        self.variables_enumerated = False
+        self.constraints_built = False
+        self.objective_built = False
+
     def add_time_points(self, time_points):
         """ Populate the valid time points """
+        self._problem_changed()
         # Copy the SORTED timepoints; this can be a sequence, a np array, whatever.
         # Variables are indexed by a sequence which can be made of anything,
         # but we do assume they are sorted for some convenience,
